@@ -327,7 +327,7 @@ func TestHistories(t *testing.T) {
 			okPool = append(okPool, h)
 		}
 	}
-	vt.Check(t, vt.N(480, 12000), func(rt *rapid.T) {
+	vt.Check(t, vt.N(480, 40000), func(rt *rapid.T) {
 		c := Case{Embedding: rapid.SampledFrom([]string{"playground", "playground", "playground", "runtest", "eval"}).Draw(rt, "embedding")}
 		n := rapid.IntRange(1, 8).Draw(rt, "n")
 		if vt.Thorough() {
